@@ -239,6 +239,21 @@ type UnixU struct {
 	UT   uint   `gorm:"serializer:unixtime;type:datetime"`
 }
 
+// ---- T11: the same struct embedded twice with different prefixes, inner `column:` rename ----
+type Addr struct {
+	City string
+	Zip  string `gorm:"column:postcode"`
+	Lat  *float64 `gorm:"column:lat"`
+}
+type Twice struct {
+	ID   uint   `gorm:"primaryKey"`
+	Mark string `gorm:"uniqueIndex"`
+	From Addr   `gorm:"embedded;embeddedPrefix:from_"`
+	To   Addr   `gorm:"embedded;embeddedPrefix:to_"`
+	Alt  *Addr  `gorm:"embedded;embeddedPrefix:alt_"`
+	Zip  string `gorm:"column:own_postcode"`
+}
+
 // registry (slices and pointers are built by reflection from the element type)
 var registry = []struct {
 	Name string
@@ -247,7 +262,7 @@ var registry = []struct {
 	{"Ints", reflect.TypeOf(Ints{})}, {"Scalars", reflect.TypeOf(Scalars{})}, {"Nulls", reflect.TypeOf(Nulls{})},
 	{"Sers", reflect.TypeOf(Sers{})}, {"Embs", reflect.TypeOf(Embs{})}, {"Defs", reflect.TypeOf(Defs{})},
 	{"Comp", reflect.TypeOf(Comp{})}, {"Keyed", reflect.TypeOf(Keyed{})}, {"StrKey", reflect.TypeOf(StrKey{})},
-	{"UnixU", reflect.TypeOf(UnixU{})},
+	{"UnixU", reflect.TypeOf(UnixU{})}, {"Twice", reflect.TypeOf(Twice{})},
 }
 
 func typeByName(n string) reflect.Type {
